@@ -408,7 +408,7 @@ pub fn run(args: &[String]) -> i32 {
     let out = arg(args, "--out").expect("--out");
     let n = read_ndjson(path).len();
     let jobs = (arg_u64(args, "--jobs", 12) as usize).clamp(1, n.max(1));
-    let exe = std::env::current_exe().expect("current_exe");
+    let exe = crate::util::self_exe();
     // job j runs the scripts j, j + jobs, j + 2*jobs, .. in a chain of children
     let handles: Vec<_> = (0..jobs)
         .map(|j| {
